@@ -359,6 +359,17 @@ def lstsq(A, b):
     return AMat(alg.mmul(alg.pinvm(A.term), b.term), (A.shape[1],) + tuple(b.shape[1:]), np.promote_types(A.dtype, b.dtype), fresh=True)
 
 
+def linear_transpose(fun, primals, duals):
+    """dependency contract (jax.linear_transpose / torch vjp): for a LINEAR map fun(Y) = G Y the result is G^T duals.
+    G is obtained by applying the real `fun` to the symbolic identity (linearity of fun is C01's contract of _matmat)."""
+    _use("linear_transpose")
+    n = primals.shape[0]
+    G = fun(AMat(alg.eye(iterm(n)), (n, n), primals.dtype))
+    if not bool(dim_eq(G.shape[0], duals.shape[0])):
+        raise ValueError("linear_transpose: cotangent shape mismatch")
+    return AMat(alg.mmul(alg.tr(G.term), duals.term), (n,) + tuple(duals.shape[1:]), np.promote_types(G.dtype, duals.dtype), fresh=True)
+
+
 def tree_flatten(value):
     return optree.tree_flatten(value, namespace="cola")
 
